@@ -9,8 +9,8 @@ import travrun, travcmp
 
 def cfgs(ctx):
     if ctx.tier == "quick":
-        return [("Traversal_path5.cfg", None, None), ("Traversal_wide2.cfg", None, None),
-                ("Traversal_sim.cfg", "num=100", 8)]
+        return [("Traversal_path4.cfg", None, None), ("Traversal_wide2.cfg", None, None),
+                ("Traversal_sim.cfg", "num=50", 8)]
     return [("Traversal_path5.cfg", None, None), ("Traversal_narrow3.cfg", None, None), ("Traversal_wide2.cfg", None, None), ("Traversal_plan3.cfg", None, None),
             ("Traversal_sim.cfg", "num=6000", 8)]
 
@@ -19,7 +19,7 @@ def run(ctx):
     total = nontriv = nbad = 0
     for cfg, sim, depth in cfgs(ctx):
         graphs, states = travrun.gen_states(ctx, cfg, simulate=sim, depth=depth)
-        states = travrun.thin(ctx, states, 40 if ctx.tier == "quick" else 800)
+        states = travrun.thin(ctx, states, 15 if ctx.tier == "quick" else 800)
         outs = travrun.replay(ctx, graphs, states, only="prod", tag=cfg.split(".")[0])
         bad = travrun.failures(states, outs, "prod")
         nbad += len(bad)
@@ -35,7 +35,7 @@ def run(ctx):
             ctx.sample(dict(graph=s["g"], prog=s["prog"], status=s["status"], ty=s["ty"], rows=len(s["rows"]), blocks=s["blocks"]))
     ctx.cov.update(evaluations=total, distinct_nontrivial=nontriv, traces_validated_against_impl=total,
                    exhaustive=(ctx.tier == "quick"),
-                   rule="all programs over the Traversal.tla alphabets (moves/as/select/path/count to 5 steps after the start, narrow to 3, wide to 2) on the "
+                   rule="all programs over the Traversal.tla alphabets (moves/as/select/path/count to 4 steps after the start (5 thorough), wide to 2, narrow to 3 (thorough), seeded random programs to 8) on the "
                         "7-graph family, plus random programs to 8 steps in the thorough tier; non-trivial = well-typed with "
                         "a non-empty untruncated result", failing_states=nbad)
     ctx.assumptions += [
